@@ -79,7 +79,16 @@ def handleTokens (inp : List String) (obs : String) : Verdict :=
             match parseOkPairs resL with
             | none => fail s!"no-alignment-returned-on-legal-input:{normPanic resL}" tags
             | some ps =>
-              match statement c ps with
+              -- the QLetters variant's result ("plain and quality letters"): `=` when identical
+              let stQ : Option String :=
+                match (tokens obs)[1]? with
+                | some resQ =>
+                  if resQ == "=" then none
+                  else match parseOkPairs resQ with
+                    | some psQ => (statement c psQ).map (· ++ "-(qletters)")
+                    | none => some s!"no-alignment-returned-on-legal-input-(qletters):{normPanic resQ}"
+                | none => some "unparsable-observation"
+              match (statement c ps).orElse (fun _ => stQ) with
               | some why =>
                 if why.startsWith "known:K2a" then known "K2a" why tags
                 else if why.startsWith "known:K2b" then known "K2b" why tags
